@@ -34,7 +34,10 @@ MANIFEST = {
 RULE = ("timelines over a generated DmrDevice/IgdDevice profile (0..4 profile services + foreign services): ops "
         "sub(auto)/wait/unsub with a scripted publisher (reaction ok/new SID/refuse/unreachable/comm error, granted timeout "
         "61..1800 s/infinite/absent, latency 0..300 s per request); unsubscribe injected at every distinct event time of a run "
-        "(thorough) ; non-trivial = at least one renewal round ran; distinct = distinct canonical driver text")
+        "(thorough) ; non-trivial = at least one renewal round ran; distinct = distinct canonical driver text. Tags record the "
+        "distribution: tmo:s<service>:<61-120|121-600|601-1800|inf|abs> (granted timeout per service), round:<reaction> "
+        "(publisher reaction per renewal), lat:<bucket> (reply latency), unsubpoint:<task-not-started|sleeping|"
+        "inflight-renewal|inflight-fallback|task-ended|notask> (where unsubscribe hit the renewal task)")
 EXHAUSTIVE = {"quick": False, "thorough": False}
 ASSUMPTIONS = [
     "caller operations are sequential (subscribe is only called while nothing is subscribed and no renewal task is alive; manual re-subscription of a live profile is not exercised)",
@@ -130,6 +133,17 @@ def tmo_tok(t) -> str:
     return str(t)
 
 
+def tmo_bucket(t) -> str:
+    if t in ("inf", "abs"):
+        return str(t)
+    t = int(t)
+    return "61-120" if t <= 120 else "121-600" if t <= 600 else "601-1800"
+
+
+def lat_bucket(lat: int) -> str:
+    return "0" if lat == 0 else "<1s" if lat < 1000 else "<60s" if lat < 60000 else "1-2min" if lat < 120000 else ">=2min"
+
+
 class Sim:
     """one case: device + profile + publisher + trace"""
 
@@ -158,6 +172,9 @@ class Sim:
             else:
                 self.svc_index[f"/e/{s}"] = 100 + j
         self.stopped = False
+        self.inflight: List[str] = []     # requests currently awaiting their reply (publisher side)
+        self.in_call: Optional[str] = None
+        self.fresh_task = None
 
     # ---- publisher (UpnpRequester fake) ------------------------------------------------------
     async def async_http_request(self, method, url, headers=None, body=None):
@@ -194,7 +211,18 @@ class Sim:
                 hdrs["TIMEOUT"] = f"Second-{int(tmo)}"
         self.lines.append(f"o req {ms(self.loop.time())} {kind} {svc} {sid_in} {reac} {tmo_tok(tmo)} {lat} {granted}")
         self.tags.add(f"req:{kind}:{reac}")
-        await asyncio.sleep(lat / 1000.0)
+        if kind != "U":
+            if reac in ("ok", "new"):
+                self.tags.add(f"tmo:s{svc}:{tmo_bucket(tmo)}")
+            self.tags.add(f"lat:{lat_bucket(lat)}")
+            if kind == "R":
+                self.tags.add(f"round:{reac}")
+        fallback = kind == "S" and self.in_call is None
+        self.inflight.append("fallback" if fallback else kind)
+        try:
+            await asyncio.sleep(lat / 1000.0)
+        finally:
+            self.inflight.pop()
         if reac == "unreach":
             raise UpnpConnectionError("unreachable")
         if reac == "comm":
@@ -338,22 +366,43 @@ class Sim:
                 return  # precondition of the sequential-caller scope (see ASSUMPTIONS)
             self.lines.append(f"sub {1 if auto else 0}")
             self.lines.append(f"o call {now} sub")
-            res, _ = self.call(self.profile.async_subscribe_services(auto_resubscribe=auto))
+            self.in_call = "sub"
+            try:
+                res, _ = self.call(self.profile.async_subscribe_services(auto_resubscribe=auto))
+            finally:
+                self.in_call = None
             self.lines.append(f"o ret {ms(self.loop.time())} sub {res}")
             self.tags.add(f"sub:{'auto' if auto else 'manual'}:{res}")
+            self.fresh_task = self.profile._resubscriber_task if self.task_alive() else None
             self.snap()
         elif name == "unsub":
             self.lines.append("unsub")
             self.lines.append(f"o call {now} unsub")
             t = self.profile._resubscriber_task
-            res, _ = self.call(self.profile.async_unsubscribe_services())
+            if t is None:
+                point = "notask"
+            elif t.done():
+                point = "task-ended"
+            elif self.inflight:
+                point = "inflight-fallback" if "fallback" in self.inflight else "inflight-renewal"
+            elif self.fresh_task is t:
+                point = "task-not-started"
+            else:
+                point = "sleeping"
+            self.in_call = "unsub"
+            try:
+                res, _ = self.call(self.profile.async_unsubscribe_services())
+            finally:
+                self.in_call = None
             self.lines.append(f"o ret {ms(self.loop.time())} unsub {res}")
             self.tags.add("unsub:task" if t is not None else "unsub:notask")
+            self.tags.add(f"unsubpoint:{point}")
             self.snap()
         elif name == "wait":
             d = int(op[1])
             self.lines.append(f"wait {d}")
             before = sum(1 for l in self.lines if l.startswith("o req"))
+            self.fresh_task = None
             self.pump(until=self.loop.time() + d / 1000.0)
             after = sum(1 for l in self.lines if l.startswith("o req"))
             if after > before:
@@ -555,6 +604,22 @@ def generate(ctx: Ctx) -> List[Case]:
         for chunk in pool.map(_worker, jobs):
             cases.extend(chunk)
     return cases
+
+
+REQUIRED_TAGS = ([f"tmo:s{k}:{b}" for k in range(3) for b in ("61-120", "121-600", "601-1800", "inf", "abs")]
+                 + [f"round:{r}" for r in ("ok", "new", "refuse", "unreach", "comm")]
+                 + [f"lat:{b}" for b in ("0", "<1s", "<60s", "1-2min", ">=2min")]
+                 + [f"unsubpoint:{p}" for p in ("task-not-started", "sleeping", "inflight-renewal", "inflight-fallback",
+                                                "task-ended", "notask")])
+
+
+def extra_evidence(ctx: Ctx, cases: List[Case], verdicts) -> Dict[str, Any]:
+    """the generator must have produced every class of the property's quantifier (listed in REQUIRED_TAGS)"""
+    seen = set()
+    for c in cases:
+        seen.update(c.tags)
+    missing = [t for t in REQUIRED_TAGS if t not in seen]
+    return {"quantifier_classes_required": len(REQUIRED_TAGS), "quantifier_classes_missing": missing}
 
 
 def signature(case: Case, verdict) -> str:
